@@ -21,6 +21,8 @@ def pixels(rng, t):
     z = base.copy(); z[rng.random(t) < 0.3] = ND; yield "gappy", z
     z = base.copy(); z[rng.random(t) < 0.2] = -3.0; yield "some-negative", z
     z = base.copy(); z[-1] = z.max() * 1e6; yield "huge-outlier", z
+    z = base.copy(); z[rng.random(t) < 0.3] = 0; z[-1] = base.max() * 1.5; z[-2] = base.max() * 1.2; yield "zeros+wet-tail", z
+    z = np.sort(base.copy()); z[: max(1, t // 3)] = 0; yield "zeros+sorted", z
     z = base.copy() + 1; z[-1] = 1e-300; yield "tiny-outlier", z
     z = 1000 + rng.normal(0, 0.1, t); z[-1] = 1.0; yield "low-variance+low", z      # shape ~ 1e8
     z = 1000 + rng.normal(0, 0.1, t); z[-1] = 2000.0; yield "low-variance+high", z
@@ -71,7 +73,7 @@ def check_pixel(kind, x, got, cal, rep, name):
 def run(tier, rng, rep):
     rep.bound = "cubes of 14 pixel kinds (ordinary, ties, zeros, all-zero/negative/nodata, constant, gaps, outliers 1e6 / 1e-300, shape ~1e8) x lengths 3..60, full and partial calibration windows, grouped kernel, accessor"
     rep.rule = "per pixel: monotonicity over all pairs of valid cells, equality, nodata rules, saturation vs the float result; distinct = distinct (check, kind, series)"
-    for t in ([3, 8, 24, 60] if tier == "quick" else [3, 5, 8, 24, 60, 200]):
+    for t in ([3, 8, 24, 60, 240] if tier == "quick" else [3, 5, 8, 24, 60, 240, 600]):
         for rep_i in range(2 if tier == "quick" else 8):
             kinds, series = zip(*list(pixels(rng, t)))
             cube = np.array(series).reshape(len(series), 1, t)
